@@ -3,6 +3,8 @@
 package run
 
 import (
+	"time"
+
 	"github.com/blues/jsonata-go/jsimy"
 
 	"verif/sim/engine"
@@ -16,4 +18,8 @@ func installAuto() {
 	jsimy.Hook = func(site string) { engine.HookYield(site, nil) }
 	jsimy.LockHook = engine.HookLockWait
 	jsimy.QuietHook = engine.HookQuiet
+	if FixedClock {
+		fixed := time.Date(2021, 3, 4, 5, 6, 7, 89000000, time.UTC)
+		jsimy.NowHook = func() time.Time { return fixed }
+	}
 }
